@@ -263,6 +263,62 @@ func (s *Sched) Settle() bool {
 	}
 }
 
+// Stragglers counts goroutines that have one of the given frames on their stack and are neither parked at a hook
+// nor blocked in a primitive of the library: goroutines still on their way to a hook.  The driver uses it to make
+// sure a run is really over before it takes the final observations.
+func (s *Sched) Stragglers(frames []string) int {
+	moving, _, _ := s.Unfinished(frames)
+	return moving
+}
+
+// Unfinished looks for goroutines that have one of the given frames on their stack and are not parked at a hook:
+// moving = on their way to a hook, blocked = waiting in a primitive of the library (with their stacks).
+func (s *Sched) Unfinished(frames []string) (moving, blocked int, stacks string) {
+	buf := make([]byte, 1<<18)
+	for {
+		n := runtime.Stack(buf, true)
+		if n < len(buf) {
+			buf = buf[:n]
+			break
+		}
+		buf = make([]byte, 2*len(buf))
+	}
+	s.mu.Lock()
+	defer s.mu.Unlock()
+	for _, blk := range strings.Split(string(buf), "\n\n") {
+		if !strings.HasPrefix(blk, "goroutine ") {
+			continue
+		}
+		has := false
+		for _, f := range frames {
+			has = has || strings.Contains(blk, f)
+		}
+		if !has {
+			continue
+		}
+		sp := strings.IndexByte(blk[10:], ' ')
+		id, err := strconv.ParseInt(blk[10:10+sp], 10, 64)
+		if err != nil {
+			continue
+		}
+		if _, parked := s.Parked[id]; parked {
+			continue
+		}
+		hdr := blk[:strings.IndexByte(blk, '\n')]
+		st := hdr[strings.IndexByte(hdr, '[')+1:]
+		if i := strings.IndexAny(st, ",]"); i >= 0 {
+			st = st[:i]
+		}
+		if stableBlocked(st, blk) {
+			blocked++
+			stacks += blk + "\n\n"
+			continue
+		}
+		moving++
+	}
+	return
+}
+
 // ParkedIDs returns the parked goroutine ids in a deterministic order.
 func (s *Sched) ParkedIDs() []int64 {
 	s.mu.Lock()
